@@ -15,7 +15,7 @@ CONSTANTS
   Horizon,    \* clock bound
   MaxEp,      \* leases per message id
   MaxIns,     \* total inserts
-  Family,     \* set of enabled action families: "lease","leasebatch","deqvar","operator","filter","admission","read"
+  Family,     \* set of enabled action families: "lease","leasebatch","deqvar","operator","filter","admission","read","restart"
   PickRule,   \* "any" | "insertion" | "nextrun"
   Ticks,      \* clock steps
   Delays,     \* enqueue / nack delays (0 = none)
@@ -180,6 +180,15 @@ Read ==
          /\ last' = [NoLast EXCEPT !.cls = "read", !.sel = p.gone, !.op = [op |-> which]]
   /\ UNCHANGED <<now, ep>>
 
+(* ---------------------------------------------------------------- restart *)
+\* the process that owns the queue is restarted on the same database: every message - and every lease that has
+\* not run out - is as it was; only the volatile throttles (last prune, last sweep) start afresh
+Reopen ==
+  /\ On("restart")
+  /\ S' = [S EXCEPT !.lp = 0, !.ls = 0]
+  /\ last' = [NoLast EXCEPT !.cls = "read", !.op = [op |-> "Reopen"]]
+  /\ UNCHANGED <<now, ep>>
+
 (* ------------------------------------------------------------------ clock *)
 Tick ==
   \E d \in Ticks :
@@ -188,7 +197,7 @@ Tick ==
     /\ last' = [NoLast EXCEPT !.cls = "tick", !.op = [op |-> "Tick", d |-> d]]
     /\ UNCHANGED <<S, ep>>
 
-Next == Enq \/ EnqBatch \/ Deq \/ LeaseSingle \/ LeaseSingleLit \/ LeaseBatchAct \/ MutIds \/ MutFilter \/ Read \/ Tick
+Next == Enq \/ EnqBatch \/ Deq \/ LeaseSingle \/ LeaseSingleLit \/ LeaseBatchAct \/ MutIds \/ MutFilter \/ Read \/ Reopen \/ Tick
 
 Spec == Init /\ [][Next]_vars
 
